@@ -57,14 +57,14 @@ func GenTargeted(seed int64, idx int, profile string) (GCase, bool) {
 		"scoping":    {famPerMethodLists, famPerMethodLists, famIntfLevel},
 		"hooks":      {famSharedHooks, famSharedHooks, famHookShapes},
 		"errors":     {famErrors, famSharedHooks, famErrors},
-		"signatures": {famSignatures, famSignatures},
+		"signatures": {famSignatures, famSignatures, famGenerics},
 		"selection":  {famSelection, famSelection},
 		"imports":    {famImports, famImportNames, famImportNames},
-		"matching":   {famMatching, famCandidates, famCandidates, famImports, famGetterShapes, famImportNames},
+		"matching":   {famMatching, famCandidates, famCandidates, famImports, famGetterShapes, famImportNames, famGenerics},
 		"slices":     {famSlices, famSlices},
 		"casefold":   {famCaseFlip, famCandidates},
 		"simple":     {famRefs},
-		"mixed":      {famNested, famPerMethodLists, famSharedHooks, famErrors, famSignatures, famImports, famMatching, famSlices, famRefs, famCaseFlip, famCandidates, famGetterShapes, famImportNames},
+		"mixed":      {famNested, famPerMethodLists, famSharedHooks, famErrors, famSignatures, famImports, famMatching, famSlices, famRefs, famCaseFlip, famCandidates, famGetterShapes, famImportNames, famGenerics},
 		"malformed":  {famSharedHooks, famErrors},
 	}
 	fs, ok := fams[profile]
@@ -1035,6 +1035,37 @@ func famImportNames(t *tgen) {
 	t.files[t.name+"/setup.go"] = sb.String()
 	t.files[t.name+"/types.go"] = local
 	t.files[t.name+"/"+dir+"/m.go"] = ext
+}
+
+// ---- instantiated generic types as operands, members and conversion targets ------------------------------------
+
+func famGenerics(t *tgen) {
+	t.feat("family:generic-types")
+	ext := "package gx\n\ntype Box[T any] struct{ V T }\ntype Pair[K comparable, V any] struct {\n\tKey K\n\tVal V\n}\ntype Num[T any] int\ntype Item struct{ ID int }\n"
+	local := fmt.Sprintf("package %s\n\nimport \"exp/%s/gx\"\n\ntype Box[T any] struct{ V T }\ntype G[T any] int\ntype L struct {\n\tB  Box[int]\n\tX  gx.Box[gx.Item]\n\tP  gx.Pair[string, *gx.Item]\n\tN  int\n\tM  G[int]\n\tBs []Box[string]\n}\ntype R struct {\n\tB  Box[int]\n\tX  gx.Box[gx.Item]\n\tP  gx.Pair[string, *gx.Item]\n\tN  G[string]\n\tM  gx.Num[bool]\n\tBs []Box[string]\n}\n", t.name, t.name)
+	var sb strings.Builder
+	sb.WriteString(header(t, fmt.Sprintf("\"exp/%s/gx\"", t.name)))
+	sb.WriteString("var _ gx.Item\n\ntype Convergen interface {\n")
+	shapes := []string{"A%d(*L) *R", "B%d(%sBox[int]) %sBox[int]", "C%d(%sgx.Box[gx.Item]) %sgx.Box[gx.Item]", "D%d(s *L, extra gx.Pair[string, int], more []Box[int]) *R",
+		"E%d(%sgx.Pair[string, *gx.Item]) (%sgx.Pair[string, *gx.Item], error)", "F%d(*R) *L"}
+	for j := 0; j < 2+t.r.Intn(3); j++ {
+		for _, n := range []string{":typecast", ":style arg", ":stringer"} {
+			if t.ch(0.4) {
+				sb.WriteString("\t// " + n + "\n")
+			}
+		}
+		sh := shapes[t.r.Intn(len(shapes))]
+		switch strings.Count(sh, "%s") {
+		case 2:
+			fmt.Fprintf(&sb, "\t"+sh+"\n", j, t.pick("*", ""), t.pick("*", ""))
+		default:
+			fmt.Fprintf(&sb, "\t"+sh+"\n", j)
+		}
+	}
+	sb.WriteString("}\n")
+	t.files[t.name+"/setup.go"] = sb.String()
+	t.files[t.name+"/types.go"] = local
+	t.files[t.name+"/gx/gx.go"] = ext
 }
 
 // ---- slices ---------------------------------------------------------------------------------------------------
